@@ -58,6 +58,7 @@ FINDINGS = {
     'pubbase_secint': 'C28-pubbase-secint-exponent',
     'secbase_negative': 'C28-secbase-negative-exponent',
     'hc_if_else': 'C28-hc-affine-if-else',
+    'sym_small': 'C28-sym-degree-le-parties',
 }
 
 
@@ -258,7 +259,9 @@ FAMILIES_QUICK = [
     ({'family': 'cl', 'l': 12}, (1, 3), None, 'cl', ()),
 ]
 FAMILIES_THOROUGH = [
-    ({'family': 'sym', 'n': 3}, (1, 3), None, 'cheap', ()),
+    # Sym(3) only with m = 1: for m >= n = 3 the shares live in GF(3^2) and secure @ raises TypeError
+    # (finding C28-sym-degree-le-parties, reported from a directed input)
+    ({'family': 'sym', 'n': 3}, (1,), None, 'cheap', ()),
     ({'family': 'sym', 'n': 11}, (3, 5), 11, 'cheap', ()),
     ({'family': 'qr', 'l': 32}, (1, 3, 5), None, 'cheap', ()),
     ({'family': 'ec', 'curve': 'Ed448', 'coords': 'affine'}, (3,), None, 'ec', ()),
@@ -384,6 +387,9 @@ def directed_findings(ctx):
                               'ops': [('secbase', 0)], 'exp_order': G.cls.order}),
         ('hc_if_else', {'spec': hc, 'm': 1, 'seed': 1, 'elems': [h5, h7], 'exps': [],
                         'ops': [('if_else', 1, 0)], 'exp_order': None}),
+        # Sym(n) with m >= n parties: shares live in GF(n^2), seclist indexing raises TypeError
+        ('sym_small', {'spec': {'family': 'sym', 'n': 3}, 'm': 3, 'seed': 1, 'elems': [[1, 2, 0], [1, 0, 2]],
+                       'exps': [], 'ops': [('op',)], 'exp_order': None}),
     ]
 
 
@@ -487,7 +493,8 @@ def run(ctx):
              ', '.join(f'{k}={round(v, 1)}' for k, v in sorted(walls.items())))
     ctx.note('excluded by design: identity/equal/opposite operands for the Costello-Lauter secure group '
              '(documented restriction of HCDivisorCL), secure if_else / secret-base repeat for affine '
-             'hyperelliptic groups (finding C28-hc-affine-if-else), secure-integer exponents with a public base '
+             'hyperelliptic groups (finding C28-hc-affine-if-else), Sym(n) with m >= n parties (finding '
+             'C28-sym-degree-le-parties), secure-integer exponents with a public base '
              '(finding C28-pubbase-secint-exponent), negative secure-integer exponents with a secret base '
              '(finding C28-secbase-negative-exponent)')
 
